@@ -146,15 +146,15 @@ def graph_roles(ctx):
         op = st["rv"].get("op")
         if not op or op["k"] not in ("copy", "move"):
             continue
-        r = v.root(op)
+        r = v.deep_root(op)
         rv = v.rvalue_of(r) if r.kind == "local" else None
         for _ in range(4):
             if rv is not None and rv["k"] == "aggregate" and rv.get("variant") == "Some":
-                r = v.root(rv["ops"][0])
+                r = v.deep_root(rv["ops"][0])
                 rv = v.rvalue_of(r) if r.kind == "local" else None
                 continue
             if rv is not None and rv["k"] == "cast":
-                r = v.root(rv["op"])
+                r = v.deep_root(rv["op"])
                 rv = v.rvalue_of(r) if r.kind == "local" else None
                 continue
             break
